@@ -2,6 +2,7 @@ package props
 
 import (
 	"go/token"
+	"go/types"
 	"sort"
 	"strings"
 
@@ -539,35 +540,77 @@ func checkRuntimeRelease(c *report.Ctx) {
 			detail = "the prefix length does not account for the substituted name of an empty user agent"
 		}
 	}
-	// the literal substituted for an empty release
-	subst := ""
+	// what is emitted: every string concatenation of the function, flattened into its operands from left to right
+	// (the statement `r += " (" + j + ")"` and the expression `r + " (" + j + ")"` associate differently and are the
+	// same string; the single `return r` after `if r == "" { r = name }` and one return per arm are the same program)
+	chains := concatChains(f)
+	// the literal substituted for an empty release: a constant joined into the prefix variable, or a constant that
+	// stands in the prefix position itself; every such constant must have the length the budget assumes
+	var substs []string
 	an.AllInstrs(f, func(in ssa.Instruction) {
 		if ph, ok := in.(*ssa.Phi); ok {
 			for _, e := range ph.Edges {
 				if s, k := an.ConstString(e); k && s != "" && ph.Type().String() == "string" {
-					subst = s
+					substs = append(substs, s)
 				}
 			}
 		}
 	})
-	c.Check("R-CONST", name+"/budget-accounts-for-emitted-prefix", "the feature budget is 128 minus the length of the prefix that will really be emitted (the user agent, or the substituted name when it is empty) minus the 3 bytes of ' (' and ')'", okBudget && subst != "" && int64(len(subst)) == unknownLen, fpos(f), 3, "%s; substituted name %q (length %d)", detail, subst, len(subst))
-	// separators: " (" + join(features, " ") + ")"
+	for _, ch := range chains {
+		if s, k := an.ConstString(ch.leaves[0]); k && s != "" {
+			substs = append(substs, s)
+		}
+	}
+	subst := ""
+	okSubst := len(substs) > 0
+	for _, s := range substs {
+		subst = s
+		if int64(len(s)) != unknownLen {
+			okSubst = false
+			break
+		}
+	}
+	c.Check("R-CONST", name+"/budget-accounts-for-emitted-prefix", "the feature budget is 128 minus the length of the prefix that will really be emitted (the user agent, or the substituted name when it is empty) minus the 3 bytes of ' (' and ')'", okBudget && okSubst, fpos(f), 3, "%s; substituted name %q (length %d)", detail, subst, len(subst))
+	// separators: prefix + " (" + join(features, " ") + ")" - in every concatenation, what follows the prefix is
+	// exactly " (", the joined features, ")"
 	var consts []string
-	an.AllInstrs(f, func(in ssa.Instruction) {
-		if bo, ok := in.(*ssa.BinOp); ok && bo.Op == token.ADD {
-			for _, v := range []ssa.Value{bo.X, bo.Y} {
-				if s, k := an.ConstString(v); k {
-					consts = append(consts, s)
+	okChains := len(chains) > 0
+	for _, ch := range chains {
+		var shape []string
+		if s, k := an.ConstString(ch.leaves[0]); k {
+			// a constant may stand for the prefix only where the given release is known to be empty
+			empty := facts.Holds(ch.root.Block(), func(ft an.Fact) bool {
+				isParam := func(v ssa.Value) bool { _, isP := v.(*ssa.Parameter); return isP }
+				if x, zero, _ := an.LenSign(ft); zero && isParam(x) {
+					return true
 				}
+				return an.CmpEq(ft, true, isParam, func(v ssa.Value) bool { e, isC := an.ConstString(v); return isC && e == "" })
+			})
+			if !empty {
+				consts = append(consts, s)
+				shape = append(shape, "<constant prefix>")
 			}
 		}
-	})
+		for _, v := range ch.leaves[1:] {
+			if s, k := an.ConstString(v); k {
+				consts = append(consts, s)
+				shape = append(shape, s)
+			} else if cl, _ := an.CallOf(v); cl != nil && an.Callee(cl) == "strings.Join" {
+				shape = append(shape, "<join>")
+			} else {
+				shape = append(shape, "<?>")
+			}
+		}
+		if strings.Join(shape, "|") != " (|<join>|)" {
+			okChains = false
+		}
+	}
 	sep := ""
 	for _, call := range an.CallsTo(f, "strings.Join") {
 		sep, _ = an.ConstString(call.Common().Args[1])
 	}
 	sort.Strings(consts)
-	c.Check("R-CONST", name+"/delimiters", "the emitted delimiters are the ones the budget accounts for: ' (' and ')' (3 bytes) and one byte between features", strings.Join(consts, "|") == " (|)" && sep == " ", fpos(f), 3, "concatenated constants: %q; join separator: %q", consts, sep)
+	c.Check("R-CONST", name+"/delimiters", "the emitted delimiters are the ones the budget accounts for: ' (' and ')' (3 bytes) and one byte between features", okChains && sep == " ", fpos(f), 3, "concatenated constants after the prefix: %q; join separator: %q", consts, sep)
 	// append guarded by featureLength <= availableLength - numberOfAppendedFeatures
 	napp := 0
 	okG := true
@@ -637,31 +680,90 @@ func checkRuntimeRelease(c *report.Ctx) {
 		uf := an.NewFacts(u)
 		ok := false
 		n := 0
+		holds := func(alt []an.Fact, pred func(an.Fact) bool) bool {
+			for _, ft := range alt {
+				if pred(ft) {
+					return true
+				}
+			}
+			return false
+		}
 		for _, call := range an.CallsTo(u, "L/appctx.ApplicationContext.Store") {
-			n++
-			longer := uf.Holds(call.Block(), func(ft an.Fact) bool {
-				r, k := an.AsRel(ft)
-				if !k {
-					return false
+			// (one store behind a flag that each arm computed is one store site per arm, under that arm's condition)
+			for _, alt := range uf.Alternatives(call.Block()) {
+				n++
+				longer := holds(alt, func(ft an.Fact) bool {
+					r, k := an.AsRel(ft)
+					if !k {
+						return false
+					}
+					_, l1 := an.LenArg(r.X)
+					_, l2 := an.LenArg(r.Y)
+					return l1 && l2 && (r.Op == token.GTR || r.Op == token.LSS)
+				})
+				notClosed := holds(alt, func(ft an.Fact) bool {
+					r, k := an.AsRel(ft)
+					if !k || r.Op != token.NEQ {
+						return false
+					}
+					n, isC := an.ConstInt(r.Y)
+					return isC && n == ')'
+				})
+				if longer && notClosed {
+					ok = true
 				}
-				_, l1 := an.LenArg(r.X)
-				_, l2 := an.LenArg(r.Y)
-				return l1 && l2 && (r.Op == token.GTR || r.Op == token.LSS)
-			})
-			notClosed := uf.Holds(call.Block(), func(ft an.Fact) bool {
-				r, k := an.AsRel(ft)
-				if !k || r.Op != token.NEQ {
-					return false
-				}
-				n, isC := an.ConstInt(r.Y)
-				return isC && n == ')'
-			})
-			if longer && notClosed {
-				ok = true
 			}
 		}
 		c.Check("R-GUARD", an.FuncName(u)+"/fixed-once-features-appended", "an existing identity is replaced only by a longer one and only while it does not yet end in ')' (features are appended once)", ok && n == 2, fpos(u), n, "store sites: %d; guarded overwrite present: %v", n, ok)
 	}
+}
+
+// concatChains returns the string concatenations of fn, each flattened into its operands from left to right
+// ((a + b) + (c + d) is a, b, c, d). Only outermost concatenations are listed.
+type concatChain struct {
+	root   *ssa.BinOp
+	leaves []ssa.Value
+}
+
+func concatChains(fn *ssa.Function) []concatChain {
+	isCat := func(v ssa.Value) *ssa.BinOp {
+		bo, ok := v.(*ssa.BinOp)
+		if !ok || bo.Op != token.ADD {
+			return nil
+		}
+		if bt, isB := bo.Type().Underlying().(*types.Basic); !isB || bt.Info()&types.IsString == 0 {
+			return nil
+		}
+		return bo
+	}
+	inner := map[*ssa.BinOp]bool{}
+	var all []*ssa.BinOp
+	an.AllInstrs(fn, func(in ssa.Instruction) {
+		if v, ok := in.(ssa.Value); ok {
+			if bo := isCat(v); bo != nil {
+				all = append(all, bo)
+				for _, o := range []ssa.Value{bo.X, bo.Y} {
+					if ib := isCat(o); ib != nil {
+						inner[ib] = true
+					}
+				}
+			}
+		}
+	})
+	var flat func(v ssa.Value, depth int) []ssa.Value
+	flat = func(v ssa.Value, depth int) []ssa.Value {
+		if bo := isCat(v); bo != nil && depth < 16 {
+			return append(flat(bo.X, depth+1), flat(bo.Y, depth+1)...)
+		}
+		return []ssa.Value{v}
+	}
+	var out []concatChain
+	for _, bo := range all {
+		if !inner[bo] {
+			out = append(out, concatChain{bo, flat(bo, 0)})
+		}
+	}
+	return out
 }
 
 var _ = report.Discharged
